@@ -5,7 +5,8 @@
    to panic exactly when a requirement of the target type is not met, and compared with the
    implementation on the complete matrix of arena states and target settings. *)
 From Coq Require Import ZArith List.
-From BS Require Import Word BumpSpec ChunkSpec Arena ArenaInv ArenaExt ArenaMisc ArenaInv2 Conv.
+From BS Require Import Word BumpSpec ChunkSpec Arena ArenaInv ArenaExt ArenaMisc ArenaInv2 Conv LibRefine.
+From BS.gen Require LibArith.
 Import ListNotations.
 Open Scope Z_scope.
 
@@ -75,6 +76,15 @@ Theorem C18_borrow_conversions_never_panic :
   conversion_panics Borrow news st = false /\ conversion_panics BorrowMut news st = false.
 Proof. exact borrow_conversions_never_panic. Qed.
 
+(* the re-alignment the model performs (Arena.align_posZ) is what `align_pos` of the CURRENT
+   src/lib.rs computes (regenerated on every run), for the position of every chunk of a state that
+   satisfies the invariant *)
+Theorem C18_align_pos_is_the_code :
+  forall c ch upb m,
+  cfg_ok c -> chunk_ok c ch -> valid_min_align m ->
+  LibArith.align_pos upb m (cpos ch) = Ok (align_posZ upb m (cpos ch)).
+Proof. exact align_pos_refines_chunk. Qed.
+
 Print Assumptions C18_enter_aligns_and_keeps_blocks.
 Print Assumptions C18_exit_keeps_invariant.
 Print Assumptions C18_exit_realigns.
@@ -83,3 +93,4 @@ Print Assumptions C18_allocations_keep_position_aligned.
 Print Assumptions C18_by_value_conversion_panics_iff.
 Print Assumptions C18_scope_conversion_panics_iff.
 Print Assumptions C18_borrow_conversions_never_panic.
+Print Assumptions C18_align_pos_is_the_code.
